@@ -1506,6 +1506,84 @@ class Module:
         self.out.append(f"@[pygen] def {tag}_append_timestamps (timing : Model.Wfm.WTiming) (timestamps : Option (List Int)) (types_ok : Bool) : Except PyErr Model.Wfm.WTiming :=")
         self.out.append(indent(ts_stmts(body_of(f_ts)), 1)); self.out.append("")
 
+    # -- T19: the comparison loops of DigitalWaveform.test -----------------------------------------------------------------------------
+    def translate_test_loops(self, cls: str, lean_name: str) -> None:
+        """T19: the part of `DigitalWaveform.test` after the window checks (tier T5 has those): `failures = []`, the loop over the samples
+        with its two running indices, the loop over the columns, the two `DigitalState(...)` conversions, `DigitalState.test`, the
+        appended `DigitalWaveformFailure(...)` and the returned result, over `Model.DigitalTest.W` / `Failure` and the generated
+        `Gen.DigitalState.test`.
+
+        Statements (closed):  `failures = []`;  `for _ in range(sample_count):`  with body  `for column_index in range(self.signal_count):`
+        + `start_sample += 1` + `expected_start_sample += 1`;  inner body:  `x = self._reverse_index(column_index)` (the method is read:
+        `return self.signal_count - 1 - index`),  `x = DigitalState(<wf>.data[<row>, column_index])`,  `if DigitalState.test(a, b):
+        failures.append(DigitalWaveformFailure(5 names))`;  `return DigitalWaveformTestResult(failures)`."""
+        fn = self.find_func(cls, "test")
+        body = [st for st in fn.body if not (isinstance(st, ast.Expr) and isinstance(st.value, ast.Constant))]
+
+        def fail(msg, node):
+            raise Untranslatable(f"{cls}.test: {msg}", node, self.path)
+        k = next((i for i, st in enumerate(body) if ast.unparse(st) == "failures = []"), None)
+        if k is None:
+            fail("`failures = []` not found", fn)
+        tail = body[k + 1:]
+        if not (len(tail) == 2 and isinstance(tail[0], ast.For) and ast.unparse(tail[0].iter) == "range(sample_count)" and not tail[0].orelse
+                and ast.unparse(tail[1]) == "return DigitalWaveformTestResult(failures)"):
+            fail("expected `for _ in range(sample_count): …` followed by `return DigitalWaveformTestResult(failures)`", tail[0] if tail else fn)
+        outer = tail[0].body
+        if not (len(outer) == 3 and isinstance(outer[0], ast.For) and isinstance(outer[0].target, ast.Name) and ast.unparse(outer[0].iter) == "range(self.signal_count)"
+                and not outer[0].orelse and sorted(ast.unparse(x) for x in outer[1:]) == ["expected_start_sample += 1", "start_sample += 1"]):
+            fail("expected the column loop followed by the two index increments", outer[0] if outer else tail[0])
+        col = outer[0].target.id
+        rev = self.find_func(cls, "_reverse_index")
+        rb = [st for st in rev.body if not (isinstance(st, ast.Expr) and isinstance(st.value, ast.Constant)) and not isinstance(st, ast.Assert)]
+        if not (len(rb) == 1 and ast.unparse(rb[0]) == "return self.signal_count - 1 - index"):
+            fail("_reverse_index is not `return self.signal_count - 1 - index`", rev)
+        WF = {"self": "a", "expected_waveform": "e"}
+        ROW = {"start_sample", "expected_start_sample"}
+        names = {}
+        lines = []
+        inner = outer[0].body
+        for st in inner[:-1]:
+            if not (isinstance(st, ast.Assign) and len(st.targets) == 1 and isinstance(st.targets[0], ast.Name)):
+                fail(f"unsupported statement {ast.unparse(st)[:80]}", st)
+            x, v = st.targets[0].id, st.value
+            if ast.unparse(v) == f"self._reverse_index({col})":
+                lines.append(f"let {x} : Int := (a.nsig : Int) - 1 - ({col} : Int)")
+                names[x] = "int"
+            elif isinstance(v, ast.Call) and ast.unparse(v.func) == "DigitalState" and len(v.args) == 1 and isinstance(v.args[0], ast.Subscript) \
+                    and isinstance(v.args[0].value, ast.Attribute) and v.args[0].value.attr == "data" and ast.unparse(v.args[0].value.value) in WF \
+                    and isinstance(v.args[0].slice, ast.Tuple) and len(v.args[0].slice.elts) == 2 and ast.unparse(v.args[0].slice.elts[0]) in ROW \
+                    and ast.unparse(v.args[0].slice.elts[1]) == col:
+                w = WF[ast.unparse(v.args[0].value.value)]
+                row = ast.unparse(v.args[0].slice.elts[0])
+                lines.append(f"Except.bind (Model.DigitalTest.W.at {w} {row} {col}) (fun raw_{x} =>\nExcept.bind (Py.enumCheck Gen.DigitalState.DigitalState_values raw_{x}) (fun {x} =>")
+                names[x] = "state"
+            else:
+                fail(f"unsupported assignment {ast.unparse(st)[:80]}", st)
+        last = inner[-1]
+        if not (isinstance(last, ast.If) and not last.orelse and isinstance(last.test, ast.Call) and ast.unparse(last.test.func) == "DigitalState.test"
+                and len(last.test.args) == 2 and all(isinstance(a_, ast.Name) and names.get(a_.id) == "state" for a_ in last.test.args)
+                and len(last.body) == 1 and isinstance(last.body[0], ast.Expr) and isinstance(last.body[0].value, ast.Call)
+                and ast.unparse(last.body[0].value.func) == "failures.append" and len(last.body[0].value.args) == 1
+                and isinstance(last.body[0].value.args[0], ast.Call) and ast.unparse(last.body[0].value.args[0].func) == "DigitalWaveformFailure"
+                and len(last.body[0].value.args[0].args) == 5 and all(isinstance(a_, ast.Name) for a_ in last.body[0].value.args[0].args)):
+            fail("expected `if DigitalState.test(a, b): failures.append(DigitalWaveformFailure(5 names))` last in the column loop", last)
+        ta, tb = (a_.id for a_ in last.test.args)
+        fa = [a_.id for a_ in last.body[0].value.args[0].args]
+        for a_ in fa:
+            if a_ not in names and a_ not in ROW:
+                fail(f"unknown name {a_} in the failure record", last)
+        closing = ")" * (2 * sum(1 for v_ in names.values() if v_ == "state"))
+        inner_code = "\n".join(lines) + f"\nExcept.bind (Gen.DigitalState.test {ta} {tb}) (fun failed =>\nExcept.ok (if failed = true then failures ++ [(⟨{', '.join(fa)}⟩ : Model.DigitalTest.Failure)] else failures))" + closing
+        code = ("(Py.forRangeE 0 sample_count.toNat (([] : List Model.DigitalTest.Failure), start_sample, expected_start_sample) (fun _ st =>\n"
+                "  let failures := st.1\n  let start_sample : Int := st.2.1\n  let expected_start_sample : Int := st.2.2\n"
+                f"  Except.bind (Py.forRangeE 0 a.nsig failures (fun {col} failures =>\n" + indent(inner_code, 2) + ")) (fun failures =>\n"
+                "    Except.ok (failures, start_sample + 1, expected_start_sample + 1)))).map (fun st => st.1)")
+        self.out.append(f"/-- generated from `{cls}.test` (the loops after the window checks): the failures in the order they are appended -/")
+        self.out.append(f"@[pygen] def {lean_name} (a e : Model.DigitalTest.W) (start_sample expected_start_sample sample_count : Int) : Except PyErr (List Model.DigitalTest.Failure) :=")
+        self.out.append(indent(code, 1))
+        self.out.append("")
+
     # -- T14: a dict-backed mapping with change notifications ----------------------------------------------------------------------
     def translate_dict_class(self, cls: str) -> None:
         """T14: `ExtendedPropertyDictionary` (nitypes/waveform/_extended_properties.py): a MutableMapping over `self._properties` whose
